@@ -117,6 +117,17 @@ CHECKS = {
             "two controllers on 2W transformers (Discrete/Continuous tap, ConstControl); CharacteristicControl/trafo3w modelled, not "
             "instantiated; decisions within 3 micro-pu of a band edge accepted either way on real power flows",
             "TLC-explored loop model; recorded event traces of the real loop validated by folding the spec machine in TLC", "§4 C13"),
+    "C12": ("model_checking",
+            "Recycle.tla models run_timeseries as a machine over the set of stale ppc components: ConstControl writes invalidate "
+            "components (Dep), the first step builds everything, later steps refresh what the aggregated recycle flags name "
+            "(transcribed from const_control.set_recycle, _check_controller_recyclability, _recycled_powerflow), results are logged "
+            "per step or by the batch reader (transcribed eligibility). TLC checks coherence at every solve and soundness of the "
+            "batch decision for every configuration; every single-target configuration and a seeded sample of the two-target ones "
+            "run through the real run_timeseries and, step by step, a fresh runpp on a controller-free copy; TLC compares every "
+            "recorded value, decides 'recorded instead of failing' and checks the recycle flags / batch decision tables.",
+            "14 write targets x 12 result variables x request form x switch scenario on one template; three steps; in_service "
+            "profiles not enumerated",
+            "TLC-checked cache-coherence model; TLC-enumerated configurations replayed on run_timeseries vs fresh power flows", "§4 C12"),
 }
 
 NOT_APPLICABLE = {
